@@ -340,7 +340,20 @@ func c07Child(a *ChildArgs) {
 			tmpls := []string{"SELECT -%d", "SELECT +%d, -a FROM t", "SELECT (((%d)))", "SELECT CASE WHEN a = %d THEN 1 ELSE 2 END FROM t", "SELECT a FROM t WHERE b IN (SELECT c FROM u WHERE d = %d)",
 				"SELECT CAST(%d AS INT), x::text FROM t", "SELECT f(g(h(%d))) FROM t", "SELECT ARRAY[%d, 2][1] FROM t", "INSERT INTO t (a) VALUES (-%d), (NOT TRUE)", "UPDATE t SET a = -%d WHERE NOT (b = 1)",
 				"WITH c AS (SELECT %d) SELECT * FROM c", "SELECT a FROM t WHERE NOT NOT (a = %d)", "SELECT a FROM t WHERE a BETWEEN -%d AND +9", "DELETE FROM t WHERE EXISTS (SELECT 1 FROM u WHERE u.a = -%d)",
-				"SELECT a FROM t UNION SELECT -%d", "SELECT INTERVAL '1 day' * -%d"}
+				"SELECT a FROM t UNION SELECT -%d", "SELECT INTERVAL '1 day' * -%d",
+				// eighth round: statement bodies inside a CTE that are not a SELECT, and rarer statement kinds, each of which
+				// passes through its own depth / flag bookkeeping
+				"WITH d AS (DELETE FROM t WHERE a = %d RETURNING a) SELECT * FROM d", "WITH i AS (INSERT INTO t (a) VALUES (%d) RETURNING a) SELECT * FROM i",
+				"WITH u AS (UPDATE t SET a = %d RETURNING a) SELECT * FROM u", "WITH o AS (WITH n AS (SELECT %d AS a) SELECT a FROM n) SELECT a FROM o",
+				"WITH RECURSIVE r (n) AS (SELECT %d UNION ALL SELECT n + 1 FROM r WHERE n < 5) SELECT n FROM r", "WITH a AS (SELECT %d), b AS (SELECT 2), c AS (SELECT 3) SELECT * FROM a, b, c",
+				"MERGE INTO t USING s ON t.id = s.id WHEN MATCHED THEN UPDATE SET a = %d WHEN NOT MATCHED THEN INSERT (a) VALUES (1)",
+				"SELECT SUM(a) OVER (PARTITION BY b ORDER BY c ROWS BETWEEN %d PRECEDING AND CURRENT ROW) FROM t", "SELECT a FROM t GROUP BY ROLLUP (a, b), CUBE (c) HAVING COUNT(*) > %d",
+				"SELECT a FROM t WHERE a = ANY (SELECT b FROM u WHERE c = %d)", "SELECT a FROM (SELECT b AS a FROM u WHERE c = %d) s JOIN LATERAL (SELECT 1) l ON TRUE",
+				"CREATE TABLE t%d (a INT PRIMARY KEY, b TEXT NOT NULL DEFAULT 'x', CHECK (a > 0))", "ALTER TABLE t ADD COLUMN c%d INT", "CREATE INDEX i%d ON t (a, b)", "DROP TABLE IF EXISTS t%d",
+				"CREATE VIEW v%d AS SELECT a FROM t WHERE b = 1", "TRUNCATE TABLE t%d", "INSERT INTO t (a) SELECT b FROM u WHERE c = %d ON CONFLICT (a) DO UPDATE SET a = 1",
+				"SELECT a FROM t ORDER BY a DESC NULLS LAST LIMIT %d OFFSET 2", "SELECT EXTRACT(YEAR FROM d), SUBSTRING(s FROM %d FOR 2), POSITION('a' IN s) FROM t",
+				"SELECT a FROM t WHERE MATCH (a, b) AGAINST ('x%d' IN BOOLEAN MODE)", "SELECT a -> 'k' ->> %d, b #> '{a}' FROM t", "SELECT x FROM t WHERE a IS NOT DISTINCT FROM %d OR (b, c) IN ((1, 2))",
+				"SHOW TABLES", "DESCRIBE t%d", "EXPLAIN SELECT %d", "SELECT a FROM t FETCH FIRST %d ROWS ONLY", "SELECT a FROM t FOR UPDATE OF t SKIP LOCKED -- %d"}
 			for _, tm := range tmpls {
 				var list []string
 				for k := 0; k < 400; k++ {
@@ -349,6 +362,22 @@ func c07Child(a *ChildArgs) {
 				if outcomeTree(gosqlx.Parse(list[0])).Accept {
 					c07Batch(a, list)
 				}
+			}
+			// homogeneous batches from the model grammar: 24 generated statements, each 160 times in a row and then one
+			// other statement (whatever a statement kind leaves behind in the shared parser is multiplied by 160)
+			gh := gen.New(rand.New(rand.NewSource(base+11)), avoid)
+			for k := 0; k < 24; k++ {
+				s := gen.Plain(gh.Statement(3).Toks)
+				if !outcomeTree(gosqlx.Parse(s)).Accept {
+					continue
+				}
+				list := make([]string, 0, 161)
+				for j := 0; j < 160; j++ {
+					list = append(list, s)
+				}
+				list = append(list, "SELECT ((((((((1))))))))")
+				a.Rec.Count("homogeneous_batches", 1)
+				c07Batch(a, list)
 			}
 			g := gen.New(rand.New(rand.NewSource(base+7)), avoid)
 			var list []string
